@@ -181,7 +181,7 @@ PROPS = {
                 "ok / raising; non-trivial = distinct (kind, handler, line sequence)",
     },
     "C20": {
-        "lean": ["AriVerif.Props.C20", "AriVerif.Props.C20A", "AriVerif.Props.SkelReader", "AriVerif.Props.SkelLifecycle", "AriVerif.Conc.MetaClose", "AriVerif.Conc.MetaFault", "AriVerif.Conc.DataClose", "AriVerif.Conc.DataFault"],
+        "lean": ["AriVerif.Props.C20", "AriVerif.Props.C20A", "AriVerif.Props.C20AMovers", "AriVerif.Props.SkelReader", "AriVerif.Props.SkelLifecycle", "AriVerif.Conc.MetaClose", "AriVerif.Conc.MetaFault", "AriVerif.Conc.DataClose", "AriVerif.Conc.DataFault"],
         "gen": ["Skeleton"],
         "streams": [s_fault.stream, s_appclose.stream, s_dispatch.stream, s_conc.meta_stream(["C20"], "meta-cosim-close"),
                     s_conc.data_stream(["C20"], "data-cosim-close", tails=True)],
